@@ -34,6 +34,7 @@ struct Stats {
     samples: Vec<Value>,
     trunc_snapshots: u64,
     trunc_offsets: u64,
+    drains: u64,
     tlc_tail: Vec<String>,
 }
 
@@ -127,7 +128,25 @@ fn trunc_sweep(b: &dyn BookDyn, s: &mut Stats) -> Option<String> {
     None
 }
 
-fn replay_one(cfg: &Cfg, idx: u64, path: &[Value], exp: &Value, s: &mut Stats) {
+/// The drain probe of BookOps!DrainF applied to the real book.
+fn drain(b: &mut Box<dyn BookDyn>, d: &Value) -> Result<Value, String> {
+    guarded(AssertUnwindSafe(|| {
+        let now = b.proj()["now"].as_u64().unwrap_or(0);
+        b.apply(&json!({"op": "enable"}));
+        b.apply(&json!({"op": "settime", "t": now + 1}));
+        let bv = d["bvol"].as_u64().unwrap_or(0);
+        if bv > 0 {
+            b.apply(&json!({"op": "cap", "side": "A", "vol": bv, "tr": 0, "price": -1}));
+        }
+        let av = d["avol"].as_u64().unwrap_or(0);
+        if av > 0 {
+            b.apply(&json!({"op": "cap", "side": "B", "vol": av, "tr": 0, "price": -1}));
+        }
+        b.proj()
+    }))
+}
+
+fn replay_one(cfg: &Cfg, idx: u64, path: &[Value], exp: &Value, dr: &Value, s: &mut Stats) {
     let mut books: Vec<Box<dyn BookDyn>> = vec![new_book(cfg.levels, cfg.t0, cfg.tick, cfg.trading)];
     let mut problem: Option<String> = None;
     let mut last_ret = Value::Null;
@@ -201,10 +220,29 @@ fn replay_one(cfg: &Cfg, idx: u64, path: &[Value], exp: &Value, s: &mut Stats) {
             }
         }
     }
+    if problem.is_none() && dr.is_object() {
+        s.drains += 1;
+        for (bi, b) in books.iter_mut().enumerate() {
+            match drain(b, dr) {
+                Ok(p) => {
+                    if let Some(d) = first_diff(&dr["exp"], &p, "drain") {
+                        problem = Some(format!("after the drain probe (market orders for the whole resting volume) copy {} differs at {}", bi, d));
+                        got = p;
+                        break;
+                    }
+                }
+                Err(m) => {
+                    problem = Some(format!("panic during the drain probe on copy {}: {}", bi, m));
+                    break;
+                }
+            }
+        }
+    }
     if let Some(p) = problem {
         s.n_mismatch += 1;
         if s.mismatches.len() < 20 {
             s.mismatches.push(json!({"what": p, "path": path, "exp": exp, "got": got,
+                "drain": dr,
                 "cfg": {"levels": cfg.levels, "tick": cfg.tick, "trading": cfg.trading, "t0": cfg.t0}}));
         }
     }
@@ -240,7 +278,7 @@ fn main() {
         }
         cfg.trunc_every = 1;
         let mut s = Stats::default();
-        replay_one(&cfg, 0, v["path"].as_array().unwrap(), &v["exp"], &mut s);
+        replay_one(&cfg, 0, v["path"].as_array().unwrap(), &v["exp"], &v["drain"], &mut s);
         println!("{}", json!({"lines": 1, "n_mismatch": s.n_mismatch, "mismatches": s.mismatches}));
         return;
     }
@@ -266,7 +304,7 @@ fn main() {
                             if s.samples.len() < 2 && path.len() >= 3 && v["exp"]["trades"].as_array().map(|a| !a.is_empty()).unwrap_or(false) {
                                 s.samples.push(json!({"path": path, "exp_trades": v["exp"]["trades"], "exp_views": v["exp"]["views"]}));
                             }
-                            replay_one(&cfg, idx, &path, &v["exp"], &mut s);
+                            replay_one(&cfg, idx, &path, &v["exp"], &v["drain"], &mut s);
                         }
                         Some(Err(e)) => {
                             s.n_mismatch += 1;
@@ -293,8 +331,9 @@ fn main() {
                 tx.send(std::mem::take(&mut chunk)).unwrap();
             }
         } else if !line.starts_with("Parsing file") && !line.starts_with("Semantic processing") && !line.starts_with("Linting of") {
-            if tail.len() < 400 {
-                tail.push(line);
+            tail.push(line);
+            if tail.len() > 600 {
+                tail.drain(100..300);
             }
         }
     }
@@ -311,6 +350,7 @@ fn main() {
         tot.n_mismatch += s.n_mismatch;
         tot.trunc_snapshots += s.trunc_snapshots;
         tot.trunc_offsets += s.trunc_offsets;
+        tot.drains += s.drains;
         for m in s.mismatches { if tot.mismatches.len() < 20 { tot.mismatches.push(m) } }
         for (k, v) in s.feats { *tot.feats.entry(k).or_insert(0) += v }
         for x in s.samples { if tot.samples.len() < 3 { tot.samples.push(x) } }
@@ -319,7 +359,7 @@ fn main() {
     println!("{}", json!({
         "lines": tot.lines, "ops": tot.ops, "n_mismatch": tot.n_mismatch, "mismatches": tot.mismatches,
         "features": tot.feats, "samples": tot.samples,
-        "trunc_snapshots": tot.trunc_snapshots, "trunc_offsets": tot.trunc_offsets,
+        "trunc_snapshots": tot.trunc_snapshots, "trunc_offsets": tot.trunc_offsets, "drains": tot.drains,
         "tlc_output": tot.tlc_tail,
     }));
 }
